@@ -361,6 +361,14 @@ func c13Tree(c *harness.Check, cs lineCase) string {
 			failure = "unexpected load error: " + err.Error()
 			return
 		}
+		// configuring again without naming a directory or an extension (only the debug flag, or
+		// nothing at all) does not move the loaded templates
+		switch len(cs.Page) % 3 {
+		case 1:
+			textwire.Configure(&config.Config{DebugMode: true})
+		case 2:
+			textwire.Configure(&config.Config{})
+		}
 		model := cs.Data.GoMap()
 		_, ferr := tpl.String(cs.Page, model)
 		if ferr == nil {
